@@ -15,6 +15,7 @@ from ..worlds import Checker
 from ._cli import parse
 
 import numpy as np
+import pandas as pd
 import xarray as xr
 import xeofs as xe
 
@@ -35,13 +36,42 @@ def base(ns, nf, seed, ds2):
 
 
 def to_xr(A, ds2):
+    """ds2: False/"DA" (plain), True/"DS2" (two-variable Dataset), "DA2S" (two stacked sample dimensions),
+    "DAMI" (user MultiIndex on the sample dimension)"""
     ns, nf = A.shape
     t = np.arange(ns) * 10
-    if not ds2:
+    kind = {False: "DA", True: "DS2"}.get(ds2, ds2)
+    if kind == "DA":
         return xr.DataArray(A, dims=("time", "x"), coords=dict(time=t, x=np.arange(nf) + 0.5), name="v")
+    if kind == "DA2S":
+        return xr.DataArray(A.reshape(2, ns // 2, nf), dims=("run", "step", "x"),
+                            coords=dict(run=["r1", "r2"], step=np.arange(ns // 2) * 3, x=np.arange(nf) + 0.5), name="v")
+    if kind == "DAMI":
+        mi = pd.MultiIndex.from_arrays([[s // 2 for s in range(ns)], ["p", "q"] * (ns // 2) + ["p"] * (ns % 2)], names=("yr", "half"))
+        da = xr.DataArray(A, dims=("time", "x"), coords=dict(x=np.arange(nf) + 0.5), name="v")
+        return da.assign_coords(xr.Coordinates.from_pandas_multiindex(mi, "time"))
     h = nf // 2
     return xr.Dataset({"a": xr.DataArray(A[:, :h], dims=("time", "x"), coords=dict(time=t, x=np.arange(h) + 0.5)),
                        "b": xr.DataArray(A[:, h:], dims=("time", "x"), coords=dict(time=t, x=np.arange(nf - h) + 0.5))})
+
+
+def sample_dims(kind):
+    return ["run", "step"] if kind == "DA2S" else "time"
+
+
+def flat(obj, kind, ns):
+    """the object on the plain sample axis time = 0, 10, 20, ...: samples the model omitted become NaN rows"""
+    if kind == "DA2S":
+        full = to_xr(np.zeros((ns, 1)), "DA2S").isel(x=0, drop=True)
+        obj = obj.reindex(run=full.run, step=full.step).transpose("run", "step", ...).stack(time=("run", "step"))
+        return obj.drop_vars(["time", "run", "step"]).assign_coords(time=np.arange(ns) * 10).transpose("time", ...)
+    if kind == "DAMI":
+        full = to_xr(np.zeros((ns, 1)), "DAMI").indexes["time"]
+        got = obj.indexes["time"]
+        pos = [full.get_loc(k) for k in got]
+        obj = obj.drop_vars(["time", "yr", "half"]).assign_coords(time=np.asarray(pos) * 10)
+        return obj.reindex(time=np.arange(ns) * 10).transpose("time", ...)
+    return obj
 
 
 def nan_addresses(obj, ds2, nf):
@@ -64,25 +94,27 @@ def eval_grid(i, scn):
     ck = Checker()
     kind, pred = scn["kind"], scn["pred"]
     ds2 = kind == "DS2"
-    ns = max([c[0] for c in scn["nan"]] + [3]) if False else None
-    NS, NF = eval_grid.shape
+    stacked = kind in ("DA2S", "DAMI")
+    NS, NF = eval_grid.shape_stacked if stacked else eval_grid.shape
+    sd = sample_dims(kind)
     A = base(NS, NF, common.seed(), ds2)
     M = A.copy()
     for s, f in scn["nan"]:
         M[s - 1, f - 1] = np.nan
-    data = to_xr(M, ds2)
-    clean = to_xr(A, ds2)
+    xk = kind if stacked else ds2
+    data = to_xr(M, xk)
+    clean = to_xr(A, xk)
     cls = pred["class"]
     center = (i % 2 == 0)           # every other mask is run without centring
     mk = lambda k: xe.single.EOF(n_modes=k, center=center, solver="full")  # noqa: E731
     if cls == "isolated":
         try:
-            mk(1).fit(data, "time")
+            mk(1).fit(data, sd)
             ck.d(False, "C06", "C06_IsolatedRefused", "fit accepted data containing an isolated NaN")
         except Exception:
             ck.d(True, "C06", "C06_IsolatedRefused", "")
         try:
-            m = mk(1).fit(clean, "time")
+            m = mk(1).fit(clean, sd)
             m.transform(data)
             ck.d(False, "C06", "C06_IsolatedRefused", "transform accepted data containing an isolated NaN")
         except Exception:
@@ -95,7 +127,7 @@ def eval_grid(i, scn):
     keepF = [f for f in range(1, NF + 1) if f not in dropF]
     k = max(1, min(len(keepS) - (1 if center else 0), len(keepF), 2))
     try:
-        m = mk(k).fit(data, "time")
+        m = mk(k).fit(data, sd)
     except Exception as e:  # noqa
         ck.d(False, "C06", "C06_DropExactly", f"fit refused data whose only NaNs are fully missing samples/features: {type(e).__name__}: {str(e)[:120]}")
         return dict(found=ck.found, D=ck.D, count={cls: 1})
@@ -115,7 +147,8 @@ def eval_grid(i, scn):
         red = xr.Dataset(parts) if len(parts) == 2 else None
     else:
         red = red.isel(x=[f - 1 for f in keepF])
-    comps, scores = m.components(), m.scores()
+    comps, scores = m.components(), flat(m.scores(), kind, NS)
+    clean_flat = to_xr(A, ds2)
     # NaN at exactly the deleted labels
     if ds2:
         got = nan_addresses(comps.map(lambda v: (v.isel(mode=0, drop=True) if "mode" in v.dims else v).expand_dims(time=[0])), True, NF)
@@ -127,10 +160,10 @@ def eval_grid(i, scn):
         set(range(1, NS + 1)) - {int(t) // 10 + 1 for t in scores.time.values}
     ck.d(got_s == set(dropS), "C06", "C06_DropExactly", f"scores are missing/NaN at samples {sorted(got_s)}, specification says {dropS}")
     try:
-        rec = m.inverse_transform(scores)
+        rec = flat(m.inverse_transform(m.scores()), kind, NS)
         want = {(s, f) for s in range(1, NS + 1) for f in range(1, NF + 1) if s in dropS or f in dropF}
         if not ds2 or isinstance(rec, xr.Dataset):
-            rec = rec.reindex(time=clean.time)
+            rec = rec.reindex(time=clean_flat.time)
             got = nan_addresses(rec, ds2, NF)
             ck.d(got == want, "C06", "C06_DropExactly", f"reconstruction is NaN at {len(got)} cells, the deleted labels cover {len(want)} cells (diff {sorted(got ^ want)[:6]})")
     except Exception as e:  # noqa
@@ -148,7 +181,9 @@ def eval_grid(i, scn):
             ck.m(why is None, "C06", "C06_EqualsDeletedBeforehand", f"components differ from the pre-deleted model: {why}")
     # transform: the training data reproduces the scores; a different missing-feature set is refused
     try:
-        t = m.transform(data)
+        t = flat(m.transform(data), kind, NS)
+        if stacked:
+            t = t.dropna("time", how="all")
         why = same(t, scores.dropna("time", how="all") if t.sizes["time"] != scores.sizes["time"] else scores, rtol=1e-7, what="transform")
         ck.m(why is None, "C04", "C04_TrainingTransformIsScores", f"transform(training data with NaNs) != scores: {why}")
     except Exception as e:  # noqa
@@ -158,15 +193,15 @@ def eval_grid(i, scn):
         f0 = dropF[0]
         M2 = M.copy()
         M2[:, f0 - 1] = A[:, f0 - 1]
-        others.append(("restored", to_xr(M2, ds2)))
+        others.append(("restored", to_xr(M2, xk)))
         if len(keepF) > 1:
             M3 = M2.copy()
             M3[:, keepF[0] - 1] = np.nan          # same number of missing features, another location
-            others.append(("moved", to_xr(M3, ds2)))
+            others.append(("moved", to_xr(M3, xk)))
     if len(keepF) > 1:
         M4 = M.copy()
         M4[:, keepF[-1] - 1] = np.nan
-        others.append(("added", to_xr(M4, ds2)))
+        others.append(("added", to_xr(M4, xk)))
     mismatch = None
     for mismatch_kind, other in others:
         try:
@@ -182,7 +217,7 @@ def eval_grid(i, scn):
             rot = xe.single.EOFRotator(n_modes=k).fit(m)
         except RuntimeError:          # Varimax may not converge on degenerate 2x2 cases: not a NaN question
             return dict(found=ck.found, D=ck.D, M=ck.M, count={cls: 1, "rotation_not_converged": 1}, ctx=dict(mismatch=mismatch, center=bool(center)))
-        rc, rs = rot.components(), rot.scores()
+        rc, rs = rot.components(), flat(rot.scores(), kind, NS)
         if not ds2:
             gf = {int(f) + 1 for f in np.where(np.isnan(rc.isel(mode=0).values))[0]}
             ck.d(gf == set(dropF), "C06", "C06_DropExactly", f"rotated components NaN at features {sorted(gf)}, specification says {dropF}")
@@ -238,6 +273,7 @@ def main():
     th = rep.tier == "thorough"
     shape = (4, 4) if th else (3, 4)
     eval_grid.shape = shape
+    eval_grid.shape_stacked = (4, 4) if th else (4, 3)
     if replay is not None:
         sc = replay["scenario"]
         fn = eval_cross if sc["scenario"]["kind"] == "CROSS" else eval_grid
@@ -257,6 +293,9 @@ def main():
     else:
         f0 = []
     f1 = scenrun.evaluate(rep, s1, eval_grid, procs=a.procs, chunksize=16)
+    # the same masks on a sample axis that is a stacked index (two sample dimensions / a user MultiIndex)
+    s3 = scenrun.enumerate_scenarios(rep, "MC_XMask", cfg(rep.tier, "KStack", *eval_grid.shape_stacked), f"c06stack_{rep.tier}", workers=8)
+    f1 += scenrun.evaluate(rep, s3, eval_grid, procs=a.procs, chunksize=16)
 
     def _mut(s):
         if s["pred"]["class"] != "fullOnly" or not s["pred"]["enough"] or not s["pred"]["dropF"]:
@@ -268,8 +307,8 @@ def main():
     f2 = scenrun.evaluate(rep, s2, eval_cross, procs=a.procs)
     scenrun.report(rep, f0 + f1 + f2, TAGS)
     rep.exhaustive = True
-    rep.extra["rule"] = f"all 2^{shape[0] * shape[1]} NaN masks of a {shape[0]}x{shape[1]} grid (DataArray and two-variable Dataset) and all pairs of missing-sample sets of two fields with 5 samples; non-trivial = non-empty mask"
-    rep.extra["distinct_nontrivial"] = sum(1 for s in s1 if s["nan"]) + sum(1 for s in s2 if s["rx"] or s["ry"])
+    rep.extra["rule"] = f"all 2^{shape[0] * shape[1]} NaN masks of a {shape[0]}x{shape[1]} grid (DataArray and two-variable Dataset), all masks of a {eval_grid.shape_stacked[0]}x{eval_grid.shape_stacked[1]} grid whose sample axis is two stacked dimensions / a MultiIndex, and all pairs of missing-sample sets of two fields with 5 samples; non-trivial = non-empty mask"
+    rep.extra["distinct_nontrivial"] = sum(1 for s in s1 + s3 if s["nan"]) + sum(1 for s in s2 if s["rx"] or s["ry"])
     return common.finish(rep)
 
 
